@@ -29,6 +29,14 @@ WRITES = ["setitem", "setslice", "iadd", "np_add_out", "fill", "sort", "copyto",
           "put", "itemset_via_flat"]
 
 
+# ways to obtain a NEW array object from a source array / wrapper / handle of an existing field, from which
+# another field is then constructed (copies made through the public API must be protected like any other source)
+# only derivations that yield NEW memory (or the same array object): a view of a still-writable base would make the base
+# "another alias of the same memory", which the statement does not cover
+RECONS = ["fancy", "mask", "pickle", "deepcopy", "copy_copy", "copy_method", "np_array"]
+RECON_CTORS = ["Field", "from_raw", "makeField", "Field_of_AnyArray"]
+
+
 class TrackedArray(np.ndarray):
     """A user-defined ndarray subclass (like np.memmap / np.matrix / astropy Quantity)."""
 
@@ -158,6 +166,58 @@ def step_construct(w, ctor, kind, seed, two_d, prewrap=False):
         w.targets.append({"obj": a, "label": f"source[{kind}]", "copy": False})
     w.fields.append({"f": f, "snap": read(f), "ctor": ctor, "label": f"{ctor}({kind})"})
     w.stats["fields"] += 1
+
+
+def step_reconstruct(w, how, j, ctor):
+    """Build a further field from an array derived (through the public API) from an existing target."""
+    import copy as _copy
+    import pickle
+    import nifty.cl as ift
+    if not w.targets:
+        return
+    t = w.targets[j % len(w.targets)]
+    obj = t["obj"]
+    isany = isinstance(obj, ift.AnyArray)
+    wrap = (lambda x: ift.AnyArray(x)) if isany else (lambda x: x)
+    try:
+        if how == "fancy":
+            new = obj[wrap(np.arange(obj.shape[0])[::-1].copy())]
+        elif how == "mask":
+            new = obj[wrap(np.ones(obj.shape, dtype=bool))]
+        elif how == "pickle":
+            new = pickle.loads(pickle.dumps(obj))
+        elif how == "deepcopy":
+            new = _copy.deepcopy(obj)
+        elif how == "copy_copy":
+            new = _copy.copy(obj)
+        elif how == "copy_method":
+            new = obj.copy()
+        elif how == "np_array":
+            new = ift.AnyArray(np.array(obj.val)) if isany else np.array(obj)
+        elif how in ("slice_step", "ravel"):
+            return                 # (old replay files) views are not generated any more
+        else:
+            raise ValueError(how)
+        if not isinstance(new, (np.ndarray, ift.AnyArray)) or new.ndim > 2 or (new.ndim and 0 in new.shape):
+            return
+        if isinstance(new, np.ma.MaskedArray):
+            return
+        dom = domain_for(tuple(new.shape))
+        if ctor == "Field":
+            f = ift.Field(dom, new)
+        elif ctor == "from_raw":
+            f = ift.Field.from_raw(dom, new)
+        elif ctor == "makeField":
+            f = ift.makeField(dom, new)
+        else:
+            new = new if isinstance(new, ift.AnyArray) else ift.AnyArray(new)
+            f = ift.Field(dom, new)
+    except (TypeError, ValueError, IndexError, AttributeError, NotImplementedError, pickle.PicklingError):
+        return                     # a refused derivation / construction is not a write
+    w.targets.append({"obj": new, "label": f"derived-source:{how}", "copy": False})
+    w.fields.append({"f": f, "snap": read(f), "ctor": ctor, "label": f"{ctor}(derived:{how} of {t['label']})"})
+    w.stats["fields"] += 1
+    w.stats["fields_from_derived_arrays"] = w.stats.get("fields_from_derived_arrays", 0) + 1
 
 
 def leaf(f, pick):
@@ -416,6 +476,8 @@ def run_program(prog, stats=None):
                 step_op(w, st["how"], st["i"], st["pick"])
             elif k == "touch":
                 step_touch(w, st["how"], st["j"])
+            elif k == "reconstruct":
+                step_reconstruct(w, st["how"], st["j"], st["ctor"])
             else:
                 last = step_write(w, st["how"], st["j"], st["seed"])
             check(w, last)
@@ -436,7 +498,9 @@ def strategies():
     write = st.fixed_dictionaries({"k": st.just("write"), "how": st.sampled_from(WRITES), "j": st.integers(0, 15),
                                    "seed": st.integers(0, 99)})
     touch = st.fixed_dictionaries({"k": st.just("touch"), "how": st.sampled_from(TOUCHES), "j": st.integers(0, 15)})
-    return st.lists(st.one_of(construct, derive, handle, handle, op, touch, touch, write, write, write),
+    recon = st.fixed_dictionaries({"k": st.just("reconstruct"), "how": st.sampled_from(RECONS), "j": st.integers(0, 15),
+                                   "ctor": st.sampled_from(RECON_CTORS)})
+    return st.lists(st.one_of(construct, derive, handle, handle, op, touch, touch, recon, write, write, write),
                     min_size=2, max_size=14)
 
 
